@@ -124,6 +124,15 @@ func detBundle(rng *rand.Rand) *jBundle {
 		"extend google.protobuf.ServiceOptions {\n  string verif_svc = 51001;\n}\n\n" +
 		"extend google.protobuf.MethodOptions {\n  string verif_method = 51001;\n}\n\n" +
 		"// uses them\nmessage ExtrasUser {\n  option (verif_msg_note) = \"noted\";\n\n  string a = 1 [\n    (verif_note) = \"n\",\n    (verif_rank) = 2\n  ];\n\n  enum Kind {\n    option (verif_flag) = true;\n\n    KIND_UNSPECIFIED = 0;\n  }\n}\n"
+	// source files with further dots in their names, each with a service of its own
+	for _, part := range []string{"account", "invoice"} {
+		name := "Billing" + capWord(part)
+		b.Files = append(b.Files, &jFile{Path: dir + "/billing." + part + ".j5s", Pkg: f.Pkg, Elems: []*jElem{
+			objDecl(name, fld("name", tScalar(kString))),
+			{Service: &jService{Name: name, BasePath: "/billing/" + part, Methods: []*jMethod{{Name: "Get" + name, HTTPMethod: "GET", Path: "/one", HasRes: true, Res: []*jF{fld("it", tRef(kObject, name, f.Pkg+"."+name))}}}}},
+			{Topic: &jTopic{Name: name, Type: "publish", Messages: []*jTopicMsg{{Name: "Post" + name, Fields: []*jF{fld("name", tScalar(kString))}}}}},
+		}})
+	}
 	// a stale copy of a generated file that was committed beside its source: the file source lists it, the
 	// compiler is expected to keep ignoring it whatever the listing order
 	b.Protos[f.Path+".proto"] = "syntax = \"proto3\";\n\npackage " + f.Pkg + ";\n\n// left over from an earlier build\nmessage StaleLeftover {\n  string was_here = 1;\n}\n"
